@@ -35,12 +35,100 @@ func c10Scenarios(thorough bool) []*Scenario {
 		{Name: "S4r Set and its rollback, connected; the device restarts empty anywhere", Cfg: WorldConfig{Targets: []string{"T1"}}, Init: connectAll("T1"),
 			Requests: []SetReqOrCall{a("leafA", "1"), rollbackReq("rollback(1)", 1)}, Faults: []FaultSpec{faultDeviceRestart("T1")}, FaultBudget: 1},
 	}
+	scs = append(scs, []*Scenario{
+		// split steps: one reconcile call is parked before one of its effects (a store write, a topo write or a device
+		// Set) while the environment and the other controllers move on – a re-synchronisation or an apply that is
+		// overtaken by a restart of the device and a new mastership term – and then continues with what it had read
+		{Name: "S5h Set applied on T1; connection loss, re-connection and a device restart anywhere; one step split", Cfg: WorldConfig{Targets: []string{"T1"}}, Init: connectAll("T1"),
+			Prefix:   []func(w *World) *Call{func(w *World) *Call { return w.GoSet(bgCtx(), a("leafA", "1").Set) }},
+			Requests: nil, Faults: []FaultSpec{faultDeviceRestart("T1"), faultConnDown("T1"), faultConnUp("T1")}, FaultBudget: 3, HoldBudget: 1, HoldDepth: 6},
+		{Name: "S5g Set applied on T1, second Set; the device restarts empty anywhere; one step split", Cfg: WorldConfig{Targets: []string{"T1"}}, Init: connectAll("T1"),
+			Prefix:   []func(w *World) *Call{func(w *World) *Call { return w.GoSet(bgCtx(), a("leafA", "1").Set) }},
+			Requests: []SetReqOrCall{a("leafA2", "2")}, Faults: []FaultSpec{faultDeviceRestart("T1")}, FaultBudget: 1, HoldBudget: 1, HoldDepth: 6},
+	}...)
 	if thorough {
 		scs = append(scs,
 			&Scenario{Name: "S5c Set on T1 connected; restart, connection loss and one crash", Cfg: WorldConfig{Targets: []string{"T1"}}, Init: connectAll("T1"),
 				Requests: []SetReqOrCall{a("leafA", "1")}, Faults: []FaultSpec{faultDeviceRestart("T1"), faultConnDown("T1"), faultConnUp("T1")}, FaultBudget: 2, CrashBudget: 1, MaxStates: 1500000})
 	}
 	return scs
+}
+
+func c10HistParse(h string) (uint64, map[string]bool) {
+	set := map[string]bool{}
+	var el uint64
+	if i := strings.Index(h, "|"); i >= 0 {
+		fmt.Sscan(h[:i], &el)
+		for _, u := range strings.Split(h[i+1:], "\x01") {
+			if u != "" {
+				set[u] = true
+			}
+		}
+	}
+	return el, set
+}
+
+// c10LiveApplied lists the "path=value" texts of the live applied values of a configuration.
+func c10LiveApplied(c *configapi.Configuration) []string {
+	var out []string
+	for path, pv := range c.Status.Applied.Values {
+		if pv.Deleted {
+			continue
+		}
+		if g, err := valuesv2.NativeTypeToGnmiTypedValue(&pv.Value); err == nil {
+			out = append(out, path+"="+c17Norm(g))
+		}
+	}
+	sort.Strings(out)
+	return out
+}
+
+// c10HistoryMonitor judges a transition against the device's own history (a history variable kept by the simulated
+// device: what it accepted in the newest term; it does not depend on what the stores say about synchronisation): a
+// change may only be sent in a term in which the device has already been sent everything that was applied before, and a
+// configuration may only be declared synchronized in a term in which the device has been sent every applied value.
+func c10HistoryMonitor(vf, vt *StoreView, tr Trans, res *StepResult) (string, string) {
+	if res == nil || res.DevHist == nil {
+		return "", ""
+	}
+	for target, reqs := range res.DevLog {
+		cf := vf.CfgOf(target)
+		if cf == nil || tr.Ctrl != cProp {
+			continue
+		}
+		for _, rq := range reqs {
+			if rq.Code != "OK" {
+				continue
+			}
+			seen := map[string]bool{}
+			for _, u := range rq.Seen {
+				seen[u] = true
+			}
+			for _, u := range rq.Updates {
+				seen[u] = true // what this very request carries is being sent now
+			}
+			for _, u := range c10LiveApplied(cf) {
+				if (rq.Election != rq.SeenEl && !contains(rq.Updates, u)) || !seen[u] {
+					return "apply-before-resync-in-term/device-history", fmt.Sprintf("%s sends a change to device %s with election id %d, but in that term the device has not been sent the applied value %s (so far it accepted %d values, the newest term used towards it is %d)", tr.String(), target, rq.Election, u, len(seen), rq.SeenEl)
+				}
+			}
+		}
+	}
+	if tr.Ctrl == cCfg {
+		for id, ct := range vt.Cfgs {
+			cf := vf.Cfgs[id]
+			if cf == nil || ct.Status.State != configapi.ConfigurationStatus_SYNCHRONIZED || cf.Status.State == configapi.ConfigurationStatus_SYNCHRONIZED {
+				continue
+			}
+			el, set := c10HistParse(res.DevHist[string(ct.TargetID)])
+			for _, u := range c10LiveApplied(cf) {
+				if uint64(ct.Status.Applied.Mastership.Term) != el || !set[u] {
+					return "resync-incomplete/device-history", fmt.Sprintf("%s declares %s synchronized in term %d, but in that term the device has not been sent the applied value %s (it accepted %d values, the newest term used towards it is %d)", tr.String(), ct.TargetID, ct.Status.Applied.Mastership.Term, u, len(set), el)
+				}
+			}
+		}
+	}
+	return "", ""
 }
 
 // c10Monitor judges one transition.
@@ -92,7 +180,7 @@ func c10Monitor(vf, vt *StoreView, tr Trans, res *StepResult) (string, string) {
 				}
 			}
 			ct := vt.CfgOf(target)
-			if ct != nil && ct.Status.State == configapi.ConfigurationStatus_SYNCHRONIZED && cf.Status.State != configapi.ConfigurationStatus_SYNCHRONIZED {
+			if tr.Kind != "release" && ct != nil && ct.Status.State == configapi.ConfigurationStatus_SYNCHRONIZED && cf.Status.State != configapi.ConfigurationStatus_SYNCHRONIZED {
 				for path, pv := range cf.Status.Applied.Values {
 					if pv.Deleted {
 						continue
@@ -202,12 +290,18 @@ func c04Terminal(w *World, target string) (string, string) {
 func checkC10(rc *RunCtx) *Report {
 	rep := newReport("model_checking")
 	scs := c10Scenarios(rc.Thorough())
+	for _, sc := range scs {
+		sc.Cfg.TrackDeviceHistory = true
+	}
 	if rc.Replay != "" {
 		replayE1(rc, rep, scs)
 		return rep
 	}
 	runMonitorCheck(rc, rep, scs, nil, func(sc *Scenario, vf, vt *StoreView, auxBefore string, tr Trans, res *StepResult) (string, string) {
-		return c10Monitor(vf, vt, tr, res)
+		if cl, text := c10Monitor(vf, vt, tr, res); cl != "" {
+			return cl, text
+		}
+		return c10HistoryMonitor(vf, vt, tr, res)
 	}, nil, func(sc *Scenario, x *Explorer, s *E1State, cands *candidates) {
 		x.W.Restore(s.snap)
 		// relation <=> connection at the end
@@ -244,17 +338,10 @@ func c04Extra(thorough bool) []*Scenario {
 				connectAll("T1")(w)
 				w.devices["T1"].refuse = map[string]codes.Code{"delete /cont/sub": codes.InvalidArgument}
 			},
-			Prefix:   []func(w *World) *Call{func(w *World) *Call { return w.GoSet(bgCtx(), setReq("T1.leafA=1+sub/leafC=c", upd("T1", "/cont/leafA", "1"), upd("T1", "/cont/sub/leafC", "c")).Set) }},
+			Prefix: []func(w *World) *Call{func(w *World) *Call {
+				return w.GoSet(bgCtx(), setReq("T1.leafA=1+sub/leafC=c", upd("T1", "/cont/leafA", "1"), upd("T1", "/cont/sub/leafC", "c")).Set)
+			}},
 			Requests: []SetReqOrCall{setReq("del /cont/sub", del("T1", "/cont/sub")), a("leafA2", "2")}, Faults: []FaultSpec{faultConnDown("T1"), faultConnUp("T1")}, FaultBudget: 2},
-		// split steps: one reconcile call is parked before one of its effects (a store write, a topo write or a device
-		// Set) while the environment and the other controllers move on – a re-synchronisation or an apply that is
-		// overtaken by a restart of the device and a new mastership term – and then continues with what it had read
-		{Name: "S5h Set applied on T1; connection loss, re-connection and a device restart anywhere; one step split", Cfg: one, Init: connectAll("T1"),
-			Prefix:   []func(w *World) *Call{func(w *World) *Call { return w.GoSet(bgCtx(), a("leafA", "1").Set) }},
-			Requests: nil, Faults: []FaultSpec{faultDeviceRestart("T1"), faultConnDown("T1"), faultConnUp("T1")}, FaultBudget: 3, HoldBudget: 1, HoldDepth: 6},
-		{Name: "S5g Set applied on T1, second Set; the device restarts empty anywhere; one step split", Cfg: one, Init: connectAll("T1"),
-			Prefix:   []func(w *World) *Call{func(w *World) *Call { return w.GoSet(bgCtx(), a("leafA", "1").Set) }},
-			Requests: []SetReqOrCall{a("leafA2", "2")}, Faults: []FaultSpec{faultDeviceRestart("T1")}, FaultBudget: 1, HoldBudget: 1, HoldDepth: 6},
 	}
 }
 
@@ -283,4 +370,13 @@ func checkC04(rc *RunCtx) *Report {
 func init() {
 	registerBubble("C10", checkC10)
 	registerBubble("C04", checkC04)
+}
+
+func contains(l []string, x string) bool {
+	for _, y := range l {
+		if y == x {
+			return true
+		}
+	}
+	return false
 }
